@@ -26,7 +26,7 @@ import subprocess
 import sys
 
 from verifkit import tlc
-from verifkit.util import ForkPool, scratch, tla_set, write_file
+from verifkit.util import scratch, tla_set, write_file
 
 LEVEL = "model_checking"
 
@@ -38,6 +38,7 @@ INVARIANTS = ["RouteEq", "ReturnsSelf", "InheritedUntouched", "AliasUntouched", 
               "KindKept"]
 ALL_ORDERS = ["single", "baseonly", "basefirst", "derivedfirst", "twice", "memberclass", "classmember",
               "membertwice", "basemember", "innerfirst", "outerfirst", "dcbefore", "dcafter"]
+# (RecursionOverflow is unreachable in the intended design: it is exercised by the Rule="prefix" run)
 ACTIONS = ["DecorateClass", "DecorateMember", "MakeDataclass", "CheckMarkHit", "CheckMarkMiss", "WalkFuncLike",
            "WalkClassTaken", "WalkClassSkipped", "WalkData", "SetMark"]
 
@@ -218,7 +219,8 @@ class World:
             elif kind == "nested":
                 out += self._class_src(s["cls"], ind + 1, obs0)
             elif kind == "alias":
-                out.append(f"{ip}{name} = {self.pyname(s['cls'])}")
+                if s["cls"] != c:
+                    out.append(f"{ip}{name} = {self.pyname(s['cls'])}")
             elif kind == "data":
                 out.append(f"{ip}{name}: int = 0" if name == "fld" else f"{ip}{name} = 42")
             else:
@@ -230,6 +232,9 @@ class World:
         for c in (5, 6, 1, 2):
             if self.classes[c - 1]["present"]:
                 out += self._class_src(c, 0, obs0) + [""]
+                for s in obs0[c - 1]["slots"]:
+                    if s["kind"] == "alias" and s["cls"] == c:      # a class referencing itself
+                        out += [f"{self.pyname(c)}.{s['name']} = {self.pyname(c)}", ""]
         return "\n".join(out)
 
     # ---- access -------------------------------------------------------------------
@@ -275,12 +280,14 @@ class World:
             elif s["kind"] in ("nested", "alias") and self.classes[s["cls"] - 1]["owner"] == c:
                 self.by_hand(s["cls"], k, slots_of)
 
-    def op_dataclass(self, c):
+    def op_dataclass(self, c, slots):
+        """slots: the model's members of class c after the operation (with the synthesised ones)."""
         import dataclasses
         K = self.cls(c)
         r = dataclasses.dataclass(K)
-        for j, n in ((25, "__init__"), (26, "__repr__"), (27, "__eq__")):
-            self._capture(j, K.__dict__[n])
+        for s in slots:
+            if s["name"] in ("__init__", "__repr__", "__eq__"):
+                self._capture(s["parts"][0]["origin"], K.__dict__[s["name"]])
         return r is K
 
     # ---- projection ---------------------------------------------------------------
@@ -344,12 +351,15 @@ class World:
         elif n == "__eq__":
             good = bad = run(lambda: (K() == K()) and 1)
             want_good = want_bad = 1
-        elif kind == "func":
-            good, bad = run(lambda: K().__getattribute__(n)(1, y=2)), run(lambda: K().__getattribute__(n)(BAD))
+        elif kind in ("func", "classmethod", "staticmethod"):
+            def target():
+                return getattr(K() if kind == "func" else K, n)
+            good, bad = run(lambda: target()(1, y=2)), run(lambda: target()(BAD))
             want_good, want_bad = 1, BAD
-        elif kind in ("classmethod", "staticmethod"):
-            good, bad = run(lambda: getattr(K, n)(1, y=2)), run(lambda: getattr(K, n)(BAD))
-            want_good, want_bad = 1, BAD
+            # the keyword-only parameter is checked like the positional one
+            bad_kw = run(lambda: target()(1, y=BAD))
+            if bad_kw[0] != bad[0]:
+                bad = [f"positional:{bad[0]}|keyword:{bad_kw[0]}", None]
         elif kind == "property" and p == 1:
             def get(x):
                 i = K()
@@ -416,7 +426,7 @@ def _compare(world, real, row, route, step):
                     add("origin", c, n, p + 1, got["origin"], want["origin"])
                 if got["depth"] != want["depth"]:
                     add("depth", c, n, p + 1, got["depth"], want["depth"])
-                elif want["depth"] >= 1 and want["wrapped"] <= 27 and got["wrapped"] != want["wrapped"]:
+                elif want["depth"] >= 1 and want["wrapped"] in world.orig and got["wrapped"] != want["wrapped"]:
                     add("__wrapped__", c, n, p + 1, got["wrapped"], want["wrapped"])
                 wm = world.meta.get(want["meta"])
                 if wm is not None and got["meta"] != wm:
@@ -465,10 +475,17 @@ def replay_case(case):
                 if op["t"] == "C":
                     if route == "A":
                         K = w.cls(op["c"])
-                        r = _deco(op["k"])(K)
-                        if (r is K) != (row["ret"]["t"] == "cls"):
+                        try:
+                            r = _deco(op["k"])(K)
+                            got = "cls" if r is K else "another object"
+                        except RecursionError:
+                            got = "raise"
+                        if got != row["ret"]["t"]:
                             out["mismatches"].append({"route": "A", "step": step, "aspect": "returns-class", "c": op["c"],
-                                                      "n": "", "p": 0, "got": "another object", "want": "the class"})
+                                                      "n": "", "p": 0, "got": {"raise": "RecursionError"}.get(got, got),
+                                                      "want": "the class itself"})
+                        if alt is not None and got != alt[step]["ret"]["t"]:
+                            alt_mm.append("ret")
                     else:
                         w.by_hand(op["c"], op["k"], slots_of)
                 elif op["t"] == "M":
@@ -488,7 +505,7 @@ def replay_case(case):
                                                   "n": name, "p": 0, "got": "another object", "want": "the argument"})
                     stats["ident_" + str(all(row["ret"]["same"]))] = stats.get("ident_" + str(all(row["ret"]["same"])), 0) + 1
                 elif op["t"] == "DC":
-                    if not w.op_dataclass(op["c"]):
+                    if not w.op_dataclass(op["c"], row["obs"][op["c"] - 1]["slots"]):
                         raise RuntimeError("dataclass() returned another class")
                     w._snapshot_extra(op["c"], row["obs"][op["c"] - 1]["slots"])
         for route, w in worlds.items():
@@ -617,7 +634,14 @@ def _report(rep, case, res, origin):
     for m in res["mismatches"]:
         upto = hist[:m["step"]]
         ops = [[o["t"], CLSNAME[o["c"]], o["i"], o["k"]] for o in upto]
-        if res.get("explained") == "Rule=prefix" and u["al"] == "DerivedAux":
+        if res.get("explained") == "Rule=prefix" and u["al"] == "Self":
+            key = {"defect": "class referencing itself cannot be decorated",
+                   "relation": "cls.__qualname__.startswith(cls.__qualname__): unbounded recursion of beartype_type"}
+            what = (f"a class that holds a reference to itself (Derived.ref = Derived) makes beartype(Derived) raise "
+                    f"RecursionError instead of returning the class: after {[_fmt_op(o, case) for o in upto]} "
+                    f"{m['aspect']} is {m['got']!r}, C13 gives {m['want']!r}; the real code matches ClassDecor.tla with "
+                    f"Rule=\"prefix\" (decortype.py: the class passes its own qualname test before it is marked)")
+        elif res.get("explained") == "Rule=prefix" and u["al"] == "DerivedAux":
             key = {"defect": "foreign class decorated through an alias",
                    "relation": "alias.__qualname__ startswith outer.__qualname__ without being nested in it"}
             what = (f"beartype(Derived) also decorates the foreign class DerivedAux that Derived merely references "
@@ -644,45 +668,45 @@ def _run_group(d, label, consts, invariants=None):
     return tlc.run_tlc("ClassDecor.tla", cfg, coverage=True, workers=4)
 
 
-# (label, expected-to-be-violated invariants (each is run alone), constants)
+# one configuration for all spec mutants: unmutated it satisfies every invariant (checked), each
+# mutant must violate one of the clauses named for it
+MUTANT_BASE = dict(VD=["Fa", "Ca", "Fu"], VI=["none", "Sa"], Aliases=["none", "Aux", "DerivedAux"],
+                   Orders=["single", "memberclass", "membertwice"], Confs=["D", "N"], Emit=False)
 MUTANTS = [
-    ("inherited", ["InheritedUntouched", "RouteEq"], dict(Mutant="inherited", Orders=["single"], Confs=["D"])),
-    ("alias", ["AliasUntouched", "RouteEq"], dict(Mutant="alias", Aliases=["Aux"], Orders=["single"], Confs=["D"])),
-    ("prefix-rule-0.23.0", ["AliasUntouched", "RouteEq"],
-     dict(Rule="prefix", Aliases=["DerivedAux"], Orders=["single"], Confs=["D"])),
-    ("doublewrap", ["FuncIdempotent", "DepthOne"], dict(Mutant="doublewrap", Orders=["memberclass", "membertwice"], Confs=["D", "N"])),
-    ("cm2func", ["KindKept", "RouteEq"], dict(Mutant="cm2func", VD=["Ca"], Orders=["single"], Confs=["D"])),
-    ("nometa", ["WrapsOriginal"], dict(Mutant="nometa", Orders=["single"], Confs=["D"])),
-    ("wrapunann", ["NoopIdentity"], dict(Mutant="wrapunann", VD=["Fu"], Orders=["single"], Confs=["D"])),
-    ("nowrap", ["Wraps"], dict(Mutant="nowrap", Orders=["single"], Confs=["D"])),
+    ("inherited", ["InheritedUntouched", "RouteEq"], dict(Mutant="inherited")),
+    ("alias", ["AliasUntouched", "RouteEq"], dict(Mutant="alias")),
+    ("prefix-rule-0.23.0", ["AliasUntouched", "RouteEq"], dict(Rule="prefix")),
+    ("doublewrap", ["FuncIdempotent", "DepthOne"], dict(Mutant="doublewrap")),
+    ("cm2func", ["KindKept", "RouteEq"], dict(Mutant="cm2func")),
+    ("nometa", ["WrapsOriginal"], dict(Mutant="nometa")),
+    ("wrapunann", ["NoopIdentity"], dict(Mutant="wrapunann")),
+    ("nowrap", ["Wraps"], dict(Mutant="nowrap")),
 ]
 
 
-def _mutants(rep, d, ex):
+def _submit_mutants(d, ex):
     futs = {}
-    for label, invs, consts in MUTANTS:
-        for inv in invs:
-            c = dict(consts)
-            c["Emit"] = False
-            cfg = write_file(d, f"mut_{label}_{inv}.cfg", _cfg(c, [inv]))
-            futs[(label, inv)] = ex.submit(tlc.run_tlc, "ClassDecor.tla", cfg, workers=2)
-    for (label, inv), f in futs.items():
+    for label, invs, consts in [("(unmutated)", INVARIANTS, {})] + MUTANTS:
+        c = dict(MUTANT_BASE)
+        c.update(consts)
+        cfg = write_file(d, f"mut_{label.strip('()')}.cfg", _cfg(c, invs))
+        futs[label] = (invs, ex.submit(tlc.run_tlc, "ClassDecor.tla", cfg, workers=2))
+    return futs
+
+
+def _check_mutants(rep, futs):
+    for label, (invs, f) in futs.items():
         res = f.result()
-        if res.violated != inv:
-            rep.machinery(f"spec mutant {label} is not rejected by invariant {inv} (TLC: {res.violated}): "
+        if label == "(unmutated)":
+            if res.violated:
+                rep.machinery(f"ClassDecor.tla (intended design) violates {res.violated} on the mutant configuration")
+            rep.tlc(res, "ClassDecor mutant base configuration")
+            continue
+        if res.violated not in invs:
+            rep.machinery(f"spec mutant {label} is not rejected by {invs} (TLC: {res.violated}): "
                           f"ClassDecor.tla is vacuous for that clause")
         rep.add("spec_mutants_killed")
-    # sanity of the mutant configurations themselves: unmutated, the same configurations hold
-    futs = {}
-    for label, invs, consts in MUTANTS:
-        c = dict(consts)
-        c.update(Mutant="none", Rule="nested", Emit=False)
-        cfg = write_file(d, f"mutbase_{label}.cfg", _cfg(c, INVARIANTS))
-        futs[label] = ex.submit(tlc.run_tlc, "ClassDecor.tla", cfg, workers=2)
-    for label, f in futs.items():
-        res = f.result()
-        if res.violated:
-            rep.machinery(f"ClassDecor.tla (intended design) violates {res.violated} on the configuration of mutant {label}")
+        rep.cov.setdefault("spec_mutants", []).append({"mutant": label, "rejected_by": res.violated})
 
 
 def _groups(tier):
@@ -691,12 +715,14 @@ def _groups(tier):
     g = []
     main_orders = ["single", "twice", "memberclass", "classmember", "membertwice", "basefirst", "derivedfirst"]
     g.append(("derived", dict(VD=ALLV, Orders=main_orders)))
-    g.append(("base", dict(VB=ALLV, VD=["Fa", "Cu"], VO=["none", "Fa", "Pu"] if q else ["none", "Fa", "Pu", "Sa", "Dt"],
-                           Orders=["baseonly", "single", "basefirst", "derivedfirst", "basemember"])))
-    g.append(("nested", dict(VI=ALLV, VDeep=["none", "Fa", "Paa"] if q else ["none"] + some,
+    g.append(("base", dict(VB=ALLV, VD=["Fa", "Cu"] if q else ["Fa", "Cu", "Pua"],
+                           VO=["none", "Pu"] if q else ["none", "Fa", "Pu", "Sa", "Dt"],
+                           Orders=["single", "basefirst", "derivedfirst", "basemember"] if q else
+                           ["baseonly", "single", "basefirst", "derivedfirst", "basemember"])))
+    g.append(("nested", dict(VI=ALLV, VDeep=["none", "Paa"] if q else ["none"] + some,
                              VD=["Fa"] if q else ["Fa", "Pu"],
                              Orders=["single", "innerfirst", "outerfirst", "twice"])))
-    g.append(("alias", dict(Aliases=["Aux", "DerivedAux", "Base"], VD=["Fa", "Pu"], VI=["none", "Ca"],
+    g.append(("alias", dict(Aliases=["Aux", "DerivedAux", "Base", "Self"], VD=["Fa", "Pu"], VI=["none", "Ca"],
                             Orders=["single", "twice", "basefirst", "derivedfirst"])))
     g.append(("dataclass", dict(DCs=["B", "D"], VD=["Fa", "Paa", "Cu"] if q else some, VB=["Fa", "Su"] if q else some,
                                 Orders=["dcbefore", "dcafter"])))
@@ -736,9 +762,12 @@ def run(rep, tier, seed):
     ]
     import beartype  # noqa: F401   (children fork from here)
     rnd = random.Random(seed)
-    with scratch("c13-") as d, ForkPool(16) as pool, cf.ThreadPoolExecutor(6) as ex:
+    import multiprocessing as mp
+    # persistent workers, forked now while this process is small (a fork per case costs far more than a case:
+    # every generated class has a process-unique name, so cases need no isolation from each other)
+    with scratch("c13-") as d, mp.get_context("fork").Pool(12) as pool, cf.ThreadPoolExecutor(8) as ex:
         tlc.sany("ClassDecor.tla")
-        _mutants(rep, d, ex)
+        mut_futs = _submit_mutants(d, ex)
         groups = _groups(tier)
         futs = [(label, consts, ex.submit(_run_group, d, label, consts)) for label, consts in groups]
         # the 0.23.0 rule, rows only: used to explain mismatches of the alias group
@@ -746,6 +775,7 @@ def run(rep, tier, seed):
         alias_consts["Rule"] = "prefix"
         fut_alt = ex.submit(_run_group, d, "alias023", alias_consts, [])
         opt_fut = ex.submit(_run_group, d, "optimized", OPT_GROUP)
+        _check_mutants(rep, mut_futs)
         cov = {a: 0 for a in ACTIONS}
         all_cases = []
         for label, consts, f in futs:
@@ -756,7 +786,13 @@ def run(rep, tier, seed):
                               f"the specification itself is wrong")
             for a in ACTIONS:
                 cov[a] += res.coverage.get(a, (0, 0))[1]
-            alt_rows = fut_alt.result().printed if label == "alias" else None
+            alt_rows = None
+            if label == "alias":
+                ares = fut_alt.result()
+                rep.tlc(ares, "ClassDecor alias, Rule=prefix (0.23.0 model, rows only)")
+                alt_rows = ares.printed
+                if ares.coverage.get("RecursionOverflow", (0, 0))[1] == 0:
+                    rep.machinery("the Rule=prefix run never reached RecursionOverflow")
             cases = _cases_from_rows(res.printed, alt_rows, start_no=len(all_cases))
             if not cases:
                 rep.machinery(f"group {label}: TLC printed no rows")
@@ -772,6 +808,7 @@ def run(rep, tier, seed):
         rnd.shuffle(order)
         chunks = _chunks([all_cases[i] for i in order], 24)
         results = [r for ch in pool.map(_replay_chunk, chunks, chunksize=1) for r in ch]
+        rep.note(f"replayed {len(all_cases)} histories")
         stats = {}
         by_no = {c["no"]: c for c in all_cases}
         for r in results:
